@@ -1,3 +1,454 @@
+(* Proofs for C29, part 1: IntervalTrap and Limiter. *)
 From Coq Require Import List NArith Bool Lia.
 From K.Model Require Import C29.
 Import ListNotations.
+Local Open Scope N_scope.
+
+Lemma upd_same : forall (A : Type) (f : N -> A) k v, upd f k v k = v.
+Proof. intros. unfold upd. now rewrite N.eqb_refl. Qed.
+Lemma upd_other : forall (A : Type) (f : N -> A) k v x, x <> k -> upd f k v x = f x.
+Proof. intros. unfold upd. destruct (N.eqb_spec x k); congruence. Qed.
+
+Ltac updsplit :=
+  repeat match goal with
+  | H : context [upd _ ?k _ ?x] |- _ =>
+      destruct (N.eq_dec x k) as [? | ?];
+      [ subst; rewrite ?upd_same in * | rewrite ?(upd_other _ _ k _ x) in * by assumption ]
+  | |- context [upd _ ?k _ ?x] =>
+      destruct (N.eq_dec x k) as [? | ?];
+      [ subst; rewrite ?upd_same in * | rewrite ?(upd_other _ _ k _ x) in * by assumption ]
+  end.
+
+Lemma fold_left_inv : forall (S L : Type) (step : S -> L -> S) (P : S -> Prop),
+  (forall s l, P s -> P (step s l)) -> forall ls s, P s -> P (fold_left step ls s).
+Proof. intros S L step P H ls. induction ls; simpl; auto. Qed.
+
+(* ====================================================================================== *)
+(* IntervalTrap                                                                           *)
+(* ====================================================================================== *)
+
+Definition tinv (iv t0 : N) (s : tst) : Prop :=
+  t0 <= tr_prev s /\ tr_prev s <= tr_now s /\
+  (forall a, In a (tr_runs s) -> a <= tr_prev s /\ t0 + iv < a) /\
+  gaps iv (tr_runs s) = true.
+
+Lemma tinit_inv : forall iv t0, tinv iv t0 (tinit t0).
+Proof. intros. unfold tinv, tinit; simpl. repeat split; try lia; intros a []. Qed.
+
+Lemma tstep_inv : forall iv t0 s l, tinv iv t0 s -> tinv iv t0 (tstep iv s l).
+Proof.
+  intros iv t0 s l (H0 & H1 & H2 & H3). destruct l as [dt | c | c dt]; simpl.
+  - unfold tinv; simpl. repeat split; auto; try lia; apply H2; auto.
+  - destruct (tr_thr s c); [ destruct (tready iv (tr_now s) (tr_prev s)) | ];
+      unfold tinv; simpl; repeat split; auto; apply H2; auto.
+  - destruct (tr_thr s c); [ unfold tinv; repeat split; auto; apply H2; auto | ].
+    destruct (tready iv (tr_now s) (tr_prev s)) eqn:R.
+    + unfold tready in R. apply N.ltb_lt in R. unfold tinv; simpl. repeat split; try lia.
+      * destruct H as [<- | H]; [ lia | apply H2 in H; lia ].
+      * destruct H as [<- | H]; [ lia | apply H2 in H; lia ].
+      * destruct (tr_runs s) as [| b r] eqn:E; auto.
+        rewrite H3, andb_true_r. apply N.ltb_lt.
+        assert (In b (b :: r)) as Hb by (left; auto). apply H2 in Hb. lia.
+    + unfold tinv; simpl. repeat split; auto; apply H2; auto.
+Qed.
+
+Lemma trun_inv : forall iv t0 ls, tinv iv t0 (trun iv (tinit t0) ls).
+Proof.
+  intros. unfold trun. apply fold_left_inv with (P := tinv iv t0);
+    [ intros; now apply tstep_inv | apply tinit_inv ].
+Qed.
+
+(* C29_trap_once_per_interval *)
+Theorem trap_once_per_interval : forall iv t0 ls, gaps iv (tr_runs (trun iv (tinit t0) ls)) = true.
+Proof. intros. apply (trun_inv iv t0 ls). Qed.
+
+Lemma gaps_spec : forall iv l, gaps iv l = true ->
+  forall i j, (i < j)%nat -> (j < length l)%nat -> nth j l 0 + iv < nth i l 0.
+Proof.
+  induction l as [| a l IH]; simpl; intros G i j Hij Hj; [ lia | ].
+  destruct l as [| b r].
+  - simpl in Hj. lia.
+  - apply andb_true_iff in G as [G1 G2]. apply N.ltb_lt in G1.
+    destruct j as [| j]; [ lia | ]. destruct i as [| i].
+    + destruct j as [| j]; [ simpl; lia | ].
+      assert (nth (S j) (b :: r) 0 + iv < nth 0%nat (b :: r) 0) as Hx
+        by (apply IH; auto; simpl in *; lia).
+      simpl in Hx |- *. lia.
+    + change (nth (S j) (a :: b :: r) 0) with (nth j (b :: r) 0).
+      change (nth (S i) (a :: b :: r) 0) with (nth i (b :: r) 0).
+      apply IH; auto; simpl in *; lia.
+Qed.
+
+(* any two runs are more than one interval apart, and none happens within one interval of
+   the trap's creation *)
+Theorem trap_runs_apart : forall iv t0 ls i j,
+  let runs := tr_runs (trun iv (tinit t0) ls) in
+  (i < j)%nat -> (j < length runs)%nat ->
+  nth j runs 0 + iv < nth i runs 0 /\ t0 + iv < nth j runs 0.
+Proof.
+  intros iv t0 ls i j runs Hij Hj. split.
+  - apply gaps_spec; auto. apply trap_once_per_interval.
+  - destruct (trun_inv iv t0 ls) as (_ & _ & H2 & _). apply H2. apply nth_In. exact Hj.
+Qed.
+
+(* ====================================================================================== *)
+(* Limiter                                                                                *)
+(* ====================================================================================== *)
+
+Record linv (s : lst) : Prop := mkLinv {
+  j_map : forall k tid, l_map s k = Some tid ->
+            tid < l_next s /\ t_key (l_heap s tid) = k /\ t_del (l_heap s tid) = false;
+  j_live : forall tid, tid < l_next s -> t_del (l_heap s tid) = false ->
+            l_map s (t_key (l_heap s tid)) = Some tid;
+  j_run : forall tid, t_run (l_heap s tid) = true ->
+            tid < l_next s /\ t_del (l_heap s tid) = false /\ expired (l_now s) (l_heap s tid) = true;
+  j_thr_run : forall c k tid, l_thr s c = LRunning k tid ->
+            t_run (l_heap s tid) = true /\ t_key (l_heap s tid) = k;
+  j_uniq : forall c1 c2 k1 k2 tid, l_thr s c1 = LRunning k1 tid -> l_thr s c2 = LRunning k2 tid -> c1 = c2;
+  j_held : forall c k tid, l_thr s c = LHeld k tid -> tid < l_next s /\ t_key (l_heap s tid) = k;
+  j_tids : forall c, l_thr s c <> LIdle -> In c (l_tids s)
+}.
+
+(* every thread between lookup and task lock holds a task that is still in the map *)
+Definition held_live (s : lst) : Prop :=
+  forall c k tid, l_thr s c = LHeld k tid -> t_del (l_heap s tid) = false.
+
+Lemma linit_inv : linv linit.
+Proof. constructor; unfold linit; simpl; intros; try discriminate; congruence. Qed.
+
+Lemma linit_held_live : held_live linit.
+Proof. unfold held_live, linit; simpl; intros; discriminate. Qed.
+
+Lemma in_add_tid : forall c x l, In x (add_tid c l) <-> x = c \/ In x l.
+Proof.
+  intros. unfold add_tid. destruct (existsb (N.eqb c) l) eqn:E; simpl.
+  - split; auto. intros [-> | H]; auto. apply existsb_exists in E as (y & Hy & Hc).
+    apply N.eqb_eq in Hc. now subst.
+  - split; intros [H | H]; auto.
+Qed.
+
+Lemma expired_mono : forall now dt t, expired now t = true -> expired (now + dt) t = true.
+Proof.
+  unfold expired. intros now dt t. destruct (t_exp t); auto.
+  intro H. apply N.ltb_lt in H. apply N.ltb_lt. lia.
+Qed.
+
+Lemma wake_running : forall tid p k t, wake tid p = LRunning k t -> p = LRunning k t.
+Proof. intros tid p k t. destruct p; simpl; try congruence. destruct (N.eqb _ _); congruence. Qed.
+Lemma wake_held : forall tid p k t, wake tid p = LHeld k t -> p = LHeld k t.
+Proof. intros tid p k t. destruct p; simpl; try congruence. destruct (N.eqb _ _); congruence. Qed.
+Lemma wake_idle : forall tid p, wake tid p = LIdle -> p = LIdle.
+Proof. intros tid p. destruct p; simpl; try congruence. destruct (N.eqb _ _); congruence. Qed.
+
+(* ---- steps that only move one thread to a pc that is neither Running nor Idle ---- *)
+Lemma set_thr_inv : forall s c p,
+  linv s -> l_thr s c <> LIdle ->
+  (forall k t, p <> LRunning k t) -> p <> LIdle ->
+  (forall k t, p = LHeld k t -> t < l_next s /\ t_key (l_heap s t) = k) ->
+  linv (set_thr s c p).
+Proof.
+  intros s c p I Hc Hr Hi Hh. destruct I. constructor; unfold set_thr; simpl; auto.
+  - intros c0 k tid H. updsplit; [ now apply Hr in H | eauto ].
+  - intros c1 c2 k1 k2 tid H1 H2. updsplit; try (now apply Hr in H1); try (now apply Hr in H2); eauto.
+  - intros c0 k tid H. updsplit; eauto.
+  - intros c0 H. updsplit; auto.
+Qed.
+
+Lemma set_thr_held_live : forall s c p,
+  held_live s -> (forall k t, p = LHeld k t -> t_del (l_heap s t) = false) ->
+  held_live (set_thr s c p).
+Proof.
+  unfold held_live, set_thr; simpl. intros s c p H Hp c0 k tid E. updsplit; eauto.
+Qed.
+
+Lemma ltick_inv : forall s dt, linv s ->
+  linv (mkL (l_now s + dt) (l_prev s) (l_next s) (l_heap s) (l_map s) (l_thr s) (l_tids s)).
+Proof.
+  intros s dt I. destruct I. constructor; simpl; auto.
+  intros tid H. apply j_run0 in H as (H1 & H2 & H3). repeat split; auto. now apply expired_mono.
+Qed.
+
+Lemma lcall_inv : forall s c k, linv s -> callable (l_thr s c) = true ->
+  linv (mkL (l_now s) (l_prev s) (l_next s) (l_heap s) (l_map s) (upd (l_thr s) c (LStart k))
+            (add_tid c (l_tids s))).
+Proof.
+  intros s c k I Hc. destruct I. constructor; simpl; auto.
+  - intros c0 k0 tid H. updsplit; [ discriminate | eauto ].
+  - intros c1 c2 k1 k2 tid H1 H2. updsplit; try discriminate; eauto.
+  - intros c0 k0 tid H. updsplit; [ discriminate | eauto ].
+  - intros c0 H. apply in_add_tid. updsplit; auto.
+Qed.
+
+(* ---- the collector ---- *)
+Lemma gc_hit_mapped : forall s k tid, linv s -> l_map s k = Some tid ->
+  gc_hit s tid = gcable (l_now s) (l_heap s tid).
+Proof.
+  intros s k tid I H. unfold gc_hit. destruct (j_map s I k tid H) as (_ & Hk & _).
+  rewrite Hk, H, N.eqb_refl. reflexivity.
+Qed.
+
+Lemma lgc_inv : forall s c k, linv s -> l_thr s c = LTrapReady k ->
+  linv (mkL (l_now s) (l_now s) (l_next s) (gc_heap s) (gc_map s) (upd (l_thr s) c (LLookup k)) (l_tids s)).
+Proof.
+  intros s c k I Hc.
+  assert (Hkey : forall tid, t_key (gc_heap s tid) = t_key (l_heap s tid))
+    by (intro; unfold gc_heap; destruct (gc_hit s tid); reflexivity).
+  assert (Hrun : forall tid, t_run (gc_heap s tid) = t_run (l_heap s tid))
+    by (intro; unfold gc_heap; destruct (gc_hit s tid); reflexivity).
+  assert (Hexp : forall tid, expired (l_now s) (gc_heap s tid) = expired (l_now s) (l_heap s tid))
+    by (intro; unfold gc_heap; destruct (gc_hit s tid); reflexivity).
+  assert (Hdel : forall tid, t_del (gc_heap s tid) = false ->
+                 t_del (l_heap s tid) = false /\ gc_hit s tid = false).
+  { intros tid. unfold gc_heap. destruct (gc_hit s tid); simpl; intro H; [ discriminate | auto ]. }
+  constructor; simpl.
+  - intros k0 tid H. unfold gc_map in H. destruct (l_map s k0) as [t |] eqn:M; [ | discriminate ].
+    destruct (gcable (l_now s) (l_heap s t)) eqn:G; inversion H; subst.
+    destruct (j_map s I _ _ M) as (H1 & H2 & H3). rewrite Hkey. repeat split; auto.
+    unfold gc_heap. rewrite (gc_hit_mapped s k0 tid I M), G. exact H3.
+  - intros tid Hn Hd. apply Hdel in Hd as (Hd & Hg). rewrite Hkey.
+    pose proof (j_live s I tid Hn Hd) as M. unfold gc_map. rewrite M.
+    rewrite (gc_hit_mapped s _ tid I M) in Hg. now rewrite Hg.
+  - intros tid H. rewrite Hrun in H. destruct (j_run s I tid H) as (H1 & H2 & H3).
+    rewrite Hexp. repeat split; auto. unfold gc_heap.
+    assert (gc_hit s tid = false) as ->; auto.
+    unfold gc_hit. destruct (l_map s (t_key (l_heap s tid))); auto.
+    unfold gcable. rewrite H. simpl. now rewrite !andb_false_r.
+  - intros c0 k0 tid H. rewrite Hrun, Hkey. updsplit; [ discriminate | eapply j_thr_run; eauto ].
+  - intros c1 c2 k1 k2 tid H1 H2. updsplit; try discriminate. eapply j_uniq; eauto.
+  - intros c0 k0 tid H. rewrite Hkey. updsplit; [ discriminate | eapply j_held; eauto ].
+  - intros c0 H. updsplit; [ apply (j_tids s I); congruence | now apply (j_tids s I) ].
+Qed.
+
+
+Ltac ue x k := destruct (N.eq_dec x k) as [-> | ?];
+  [ rewrite ?upd_same in * | rewrite ?(upd_other _ _ k _ x) in * by assumption ].
+
+Lemma lins_inv : forall s c k, linv s -> l_thr s c = LMiss k -> l_map s k = None ->
+  linv (mkL (l_now s) (l_prev s) (l_next s + 1) (upd (l_heap s) (l_next s) (task_new k))
+            (upd (l_map s) k (Some (l_next s))) (upd (l_thr s) c (LHeld k (l_next s))) (l_tids s)).
+Proof.
+  intros s c k I Hc Hm. constructor; simpl.
+  - intros k0 tid H. ue k0 k.
+    + inversion H; subst. rewrite upd_same. simpl. repeat split; auto; lia.
+    + destruct (j_map s I _ _ H) as (H1 & H2 & H3).
+      rewrite upd_other by lia. repeat split; auto; lia.
+  - intros tid Hn Hd. ue tid (l_next s).
+    + reflexivity.
+    + assert (tid < l_next s) as Hlt by lia. pose proof (j_live s I tid Hlt Hd) as M.
+      rewrite upd_other; auto. congruence.
+  - intros tid H. ue tid (l_next s).
+    + discriminate.
+    + destruct (j_run s I tid H) as (H1 & H2 & H3). repeat split; auto; lia.
+  - intros c0 k0 tid H. ue c0 c; [ discriminate | ].
+    destruct (j_thr_run s I _ _ _ H) as (H1 & H2). destruct (j_run s I _ H1) as (H3 & _).
+    rewrite upd_other by lia. auto.
+  - intros c1 c2 k1 k2 tid H1 H2. ue c1 c; [ discriminate | ]. ue c2 c; [ discriminate | ].
+    eapply j_uniq; eauto.
+  - intros c0 k0 tid H. ue c0 c.
+    + inversion H; subst. rewrite upd_same. simpl. split; auto; lia.
+    + destruct (j_held s I _ _ _ H). rewrite upd_other by lia. split; auto; lia.
+  - intros c0 H. ue c0 c; [ apply (j_tids s I); congruence | now apply (j_tids s I) ].
+Qed.
+
+Lemma ldecide_run_inv : forall s c k tid, linv s -> l_thr s c = LHeld k tid ->
+  t_del (l_heap s tid) = false -> expired (l_now s) (l_heap s tid) = true ->
+  t_run (l_heap s tid) = false ->
+  linv (mkL (l_now s) (l_prev s) (l_next s) (upd (l_heap s) tid (set_run (l_heap s tid) true))
+            (l_map s) (upd (l_thr s) c (LRunning k tid)) (l_tids s)).
+Proof.
+  intros s c k tid I Hc Hd He Hr. destruct (j_held s I _ _ _ Hc) as (Hlt & Hk).
+  constructor; simpl.
+  - intros k0 t H. destruct (j_map s I _ _ H) as (H1 & H2 & H3). ue t tid; simpl; auto.
+  - intros t Hn. ue t tid; simpl; intro H; now apply (j_live s I).
+  - intros t. ue t tid; simpl; intro H; [ repeat split; auto | now apply (j_run s I) ].
+  - intros c0 k0 t H. ue c0 c.
+    + inversion H; subst. rewrite upd_same. simpl. auto.
+    + destruct (j_thr_run s I _ _ _ H) as (H1 & H2). ue t tid; simpl; auto.
+  - intros c1 c2 k1 k2 t H1 H2. ue c1 c; ue c2 c; auto.
+    + inversion H1; subst. destruct (j_thr_run s I _ _ _ H2) as (H3 & _). congruence.
+    + inversion H2; subst. destruct (j_thr_run s I _ _ _ H1) as (H3 & _). congruence.
+    + eapply j_uniq; eauto.
+  - intros c0 k0 t H. ue c0 c; [ discriminate | ].
+    destruct (j_held s I _ _ _ H). ue t tid; simpl; auto.
+  - intros c0 H. ue c0 c; [ apply (j_tids s I); congruence | now apply (j_tids s I) ].
+Qed.
+
+Lemma lend_inv : forall s c k tid out e, linv s -> l_thr s c = LRunning k tid ->
+  linv (mkL (l_now s) (l_prev s) (l_next s) (upd (l_heap s) tid (set_res (l_heap s tid) out e))
+            (l_map s) (upd (l_thr s) c (LBcast k tid out)) (l_tids s)).
+Proof.
+  intros s c k tid out e I Hc. constructor; simpl.
+  - intros k0 t H. destruct (j_map s I _ _ H) as (H1 & H2 & H3). ue t tid; simpl; auto.
+  - intros t Hn. ue t tid; simpl; intro H; now apply (j_live s I).
+  - intros t. ue t tid; simpl; intro H; [ discriminate | now apply (j_run s I) ].
+  - intros c0 k0 t H. ue c0 c; [ discriminate | ].
+    destruct (j_thr_run s I _ _ _ H) as (H1 & H2). ue t tid; simpl; auto.
+    exfalso. apply n. eapply j_uniq; eauto.
+  - intros c1 c2 k1 k2 t H1 H2. ue c1 c; [ discriminate | ]. ue c2 c; [ discriminate | ].
+    eapply j_uniq; eauto.
+  - intros c0 k0 t H. ue c0 c; [ discriminate | ].
+    destruct (j_held s I _ _ _ H). ue t tid; simpl; auto.
+  - intros c0 H. ue c0 c; [ apply (j_tids s I); congruence | now apply (j_tids s I) ].
+Qed.
+
+Lemma lbcast_inv : forall s c k tid out, linv s -> l_thr s c = LBcast k tid out ->
+  linv (mkL (l_now s) (l_prev s) (l_next s) (l_heap s) (l_map s)
+            (upd (fun w => wake tid (l_thr s w)) c (LDone out)) (l_tids s)).
+Proof.
+  intros s c k tid out I Hc. constructor; simpl.
+  - apply (j_map s I).
+  - apply (j_live s I).
+  - apply (j_run s I).
+  - intros c0 k0 t H. ue c0 c; [ discriminate | apply wake_running in H; eapply j_thr_run; eauto ].
+  - intros c1 c2 k1 k2 t H1 H2. ue c1 c; [ discriminate | ]. ue c2 c; [ discriminate | ].
+    apply wake_running in H1, H2. eapply j_uniq; eauto.
+  - intros c0 k0 t H. ue c0 c; [ discriminate | apply wake_held in H; eapply j_held; eauto ].
+  - intros c0 H. ue c0 c; [ apply (j_tids s I); congruence | ].
+    apply (j_tids s I). intro E. apply H. now rewrite E.
+Qed.
+
+(* ---- one step preserves the invariant: always for the patched code, and for the code as found
+        when the step is not a collection inside some caller's lookup/lock window ---- *)
+Lemma lstep_inv : forall fx iv s l,
+  linv s -> (fx = true \/ held_live s) -> linv (lstep fx iv s l).
+Proof.
+  intros fx iv s l I Hfx. destruct l as [dt | c k | c | c | c | c | c | c out ttl | c | c]; simpl.
+  - now apply ltick_inv.
+  - destruct (callable (l_thr s c)) eqn:E; [ now apply lcall_inv | exact I ].
+  - destruct (l_thr s c) eqn:E; try exact I.
+    apply set_thr_inv; auto; try congruence.
+    + destruct (tready iv (l_now s) (l_prev s)); congruence.
+    + destruct (tready iv (l_now s) (l_prev s)); congruence.
+    + destruct (tready iv (l_now s) (l_prev s)); congruence.
+  - destruct (l_thr s c) eqn:E; try exact I.
+    destruct (tready iv (l_now s) (l_prev s)).
+    + now apply lgc_inv.
+    + apply set_thr_inv; auto; congruence.
+  - destruct (l_thr s c) eqn:E; try exact I.
+    apply set_thr_inv; auto; try congruence.
+    + destruct (l_map s k); congruence.
+    + destruct (l_map s k); congruence.
+    + intros k0 t H. destruct (l_map s k) eqn:M; inversion H; subst.
+      destruct (j_map s I _ _ M) as (H1 & H2 & _). auto.
+  - destruct (l_thr s c) eqn:E; try exact I.
+    destruct (l_map s k) eqn:M.
+    + apply set_thr_inv; auto; try congruence.
+      intros k0 t H. inversion H; subst. destruct (j_map s I _ _ M) as (H1 & H2 & _). auto.
+    + now apply lins_inv.
+  - destruct (l_thr s c) eqn:E; try exact I.
+    destruct (fx && t_del (l_heap s tid)) eqn:F.
+    { apply set_thr_inv; auto; congruence. }
+    destruct (negb (expired (l_now s) (l_heap s tid))) eqn:X.
+    { apply set_thr_inv; auto; congruence. }
+    destruct (t_run (l_heap s tid)) eqn:R.
+    { apply set_thr_inv; auto; congruence. }
+    apply ldecide_run_inv; auto.
+    + destruct Hfx as [-> | HL]; [ exact F | eapply HL; eauto ].
+    + now apply negb_false_iff in X.
+  - destruct (l_thr s c) eqn:E; try exact I. now apply lend_inv.
+  - destruct (l_thr s c) eqn:E; try exact I. now apply lbcast_inv.
+  - destruct (l_thr s c) eqn:E; try exact I. apply set_thr_inv; auto; congruence.
+Qed.
+
+Lemma lrun_inv : forall iv ls, linv (lrun true iv linit ls).
+Proof.
+  intros. unfold lrun. apply fold_left_inv with (P := linv); [ | apply linit_inv ].
+  intros s l I. apply lstep_inv; auto.
+Qed.
+
+(* two executions of one key are the same execution *)
+Lemma linv_single_flight : forall s c1 c2 k t1 t2, linv s ->
+  l_thr s c1 = LRunning k t1 -> l_thr s c2 = LRunning k t2 -> c1 = c2.
+Proof.
+  intros s c1 c2 k t1 t2 I H1 H2.
+  destruct (j_thr_run s I _ _ _ H1) as (R1 & K1). destruct (j_thr_run s I _ _ _ H2) as (R2 & K2).
+  destruct (j_run s I _ R1) as (N1 & D1 & _). destruct (j_run s I _ R2) as (N2 & D2 & _).
+  pose proof (j_live s I _ N1 D1) as M1. pose proof (j_live s I _ N2 D2) as M2.
+  rewrite K1 in M1. rewrite K2 in M2. assert (t1 = t2) by congruence. subst.
+  eapply j_uniq; eauto.
+Qed.
+
+(* C29_limiter_single_flight: patched code, every interleaving *)
+Theorem limiter_single_flight : forall iv ls c1 c2 k t1 t2,
+  let s := lrun true iv linit ls in
+  l_thr s c1 = LRunning k t1 -> l_thr s c2 = LRunning k t2 -> c1 = c2.
+Proof. intros iv ls c1 c2 k t1 t2 s. apply linv_single_flight. apply lrun_inv. Qed.
+
+(* ---- the code as found: single flight on schedules without a collection in the window ---- *)
+Lemma lstep_held_live : forall iv s l,
+  linv s -> held_live s -> gc_in_window iv s l = false -> held_live (lstep false iv s l).
+Proof.
+  intros iv s l I HL W. destruct l as [dt | c k | c | c | c | c | c | c out ttl | c | c]; simpl.
+  - exact HL.
+  - destruct (callable (l_thr s c)); [ | exact HL ].
+    intros c0 k0 t H. simpl in H. ue c0 c; [ discriminate | eapply HL; eauto ].
+  - destruct (l_thr s c) eqn:E; try exact HL. apply set_thr_held_live; auto.
+    intros k0 t H. destruct (tready iv (l_now s) (l_prev s)); discriminate.
+  - destruct (l_thr s c) eqn:E; try exact HL.
+    destruct (tready iv (l_now s) (l_prev s)) eqn:R.
+    + simpl in W. rewrite E, R in W. simpl in W.
+      intros c0 k0 t H. simpl in H |- *. ue c0 c; [ discriminate | ].
+      unfold gc_heap. destruct (gc_hit s t) eqn:G; [ | eapply HL; eauto ].
+      exfalso. assert (In c0 (l_tids s)) as Hin by (apply (j_tids s I); congruence).
+      assert (existsb (fun w => match l_thr s w with LHeld _ tid => gc_hit s tid | _ => false end)
+                      (l_tids s) = true) as Hx.
+      { apply existsb_exists. exists c0. split; auto. now rewrite H. }
+      congruence.
+    + apply set_thr_held_live; auto. discriminate.
+  - destruct (l_thr s c) eqn:E; try exact HL. apply set_thr_held_live; auto.
+    intros k0 t H. destruct (l_map s k) eqn:M; inversion H; subst.
+    now destruct (j_map s I _ _ M) as (_ & _ & H3).
+  - destruct (l_thr s c) eqn:E; try exact HL. destruct (l_map s k) eqn:M.
+    + apply set_thr_held_live; auto. intros k0 t H. inversion H; subst.
+      now destruct (j_map s I _ _ M) as (_ & _ & H3).
+    + intros c0 k0 t H. simpl in H |- *. ue c0 c.
+      * inversion H; subst. now rewrite upd_same.
+      * destruct (j_held s I _ _ _ H) as (Hlt & _). rewrite upd_other by lia. eapply HL; eauto.
+  - destruct (l_thr s c) eqn:E; try exact HL. simpl.
+    destruct (negb (expired (l_now s) (l_heap s tid))).
+    { apply set_thr_held_live; auto. discriminate. }
+    destruct (t_run (l_heap s tid)).
+    { apply set_thr_held_live; auto. discriminate. }
+    intros c0 k0 t H. simpl in H |- *. ue c0 c; [ discriminate | ].
+    ue t tid; simpl; eapply HL; eauto.
+  - destruct (l_thr s c) eqn:E; try exact HL.
+    intros c0 k0 t H. simpl in H |- *. ue c0 c; [ discriminate | ].
+    ue t tid; simpl; eapply HL; eauto.
+  - destruct (l_thr s c) eqn:E; try exact HL.
+    intros c0 k0 t H. simpl in H |- *. ue c0 c; [ discriminate | ].
+    apply wake_held in H. eapply HL; eauto.
+  - destruct (l_thr s c) eqn:E; try exact HL. apply set_thr_held_live; auto. discriminate.
+Qed.
+
+Lemma lrun_safe_inv : forall iv ls s, linv s -> held_live s -> gc_safe false iv s ls = true ->
+  linv (lrun false iv s ls) /\ held_live (lrun false iv s ls).
+Proof.
+  intros iv ls. induction ls as [| l r IH]; intros s I HL G; simpl in *; auto.
+  apply andb_true_iff in G as [G1 G2]. apply negb_true_iff in G1.
+  apply IH; auto.
+  - apply lstep_inv; auto.
+  - now apply lstep_held_live.
+Qed.
+
+(* C29_limiter_single_flight_partial *)
+Theorem limiter_single_flight_partial : forall iv ls c1 c2 k t1 t2,
+  gc_safe false iv linit ls = true ->
+  let s := lrun false iv linit ls in
+  l_thr s c1 = LRunning k t1 -> l_thr s c2 = LRunning k t2 -> c1 = c2.
+Proof.
+  intros iv ls c1 c2 k t1 t2 G s. apply linv_single_flight.
+  apply lrun_safe_inv; auto using linit_inv, linit_held_live.
+Qed.
+
+(* C29_limiter_gc_race_refuted: the code as found, the schedule of the seed case `seed-gc-race` *)
+Definition race_iv : N := 60000000000.
+Definition race_sched : list llab :=
+  concat (map (lexpand 2) [MBegin 0 1; MTick 60000000001; MBegin 1 1; MEnter 1; MEnter 0]).
+
+Theorem limiter_gc_race_refuted :
+  exists iv ls c1 c2 k t1 t2,
+    let s := lrun false iv linit ls in
+    l_thr s c1 = LRunning k t1 /\ l_thr s c2 = LRunning k t2 /\ c1 <> c2.
+Proof.
+  exists race_iv, race_sched, 0, 1, 1, 0, 1. vm_compute. repeat split; congruence.
+Qed.
